@@ -162,6 +162,16 @@ def run_census(prog, rep, which, rule):
                 n_tab += 1
                 rep.ob(rule, True, key, 'reviewed (same operation on the same inputs as a reviewed site of this function): ' + same[0]['reason'], s.loc())
                 continue
+            # `self.counter += x` of a reviewed counter, written elsewhere in the same method (in the method instead of in a closure of it, or the
+            # reverse): the review argues about the counter
+            acc = census.accumulator_field(prog, body, s)
+            if acc:
+                fam = body.nkey.split('::{closure#')[0]
+                ea = [e2 for k2, e2 in table.items() if e2.get('accumulator') == acc and k2.split('|', 1)[0].split('::{closure#')[0] == fam]
+                if ea:
+                    n_tab += 1
+                    rep.ob(rule, True, key, 'reviewed (in-place update of the same counter %s in the same method): %s' % (acc, ea[0]['reason']), s.loc())
+                    continue
             # the operand is now computed by a private helper (extract-function on the producer side): look the site up as it reads once the
             # helper is spliced back into this function
             viainl = None
